@@ -3,6 +3,7 @@ package checks
 import (
 	"errors"
 	"fmt"
+	"net"
 	"strings"
 	"time"
 
@@ -319,6 +320,69 @@ func init() {
 	h.RegisterReplayer("c17-seq", evalC17Seq)
 }
 
+// ---- the package-level SendMail against a real listener: the verdict of each stage comes back ------------------------
+
+// C17SendCase: smtp.SendMail over loopback TCP to Server.Serve; the backend refuses at Stage ("" = accepts all).
+type C17SendCase struct {
+	Stage string `json:"stage"` // "" | mail | rcpt1 | rcpt2 | data
+}
+
+func evalC17Send(c C17SendCase) *h.Finding {
+	desc := fmt.Sprintf("SendMail, backend refuses at %q", c.Stage)
+	defer h.GuardEnter("C17 " + desc)()
+	ln, err := net.Listen("tcp", "127.0.0.1:0")
+	if err != nil {
+		return nil // no loopback: nothing to judge
+	}
+	be := &h.Backend{ByContent: true}
+	trustHarnessCA()
+	srv := h.Config{TLSAvailable: true}.NewServer(be, &h.LogBuf{})
+	served := make(chan struct{})
+	go func() { srv.Serve(ln); close(served) }()
+	defer func() { srv.Close(); <-served }()
+	from, to, body := "ok@a.example", []string{"ok1@b.example", "ok2@b.example"}, "accept-1\r\nbody\r\n"
+	switch c.Stage {
+	case "mail":
+		from = "rejected@a.example"
+	case "rcpt1":
+		to[0] = "rejected@b.example"
+	case "rcpt2":
+		to[1] = "rejected@b.example"
+	case "data":
+		body = "reject-1\r\nbody\r\n"
+	}
+	serr := smtp.SendMail(ln.Addr().String(), nil, from, to, strings.NewReader(body))
+	delivered := 0
+	for _, e := range be.Trace() {
+		if e.Kind == "Data" && e.Ret == "nil" {
+			delivered++
+		}
+	}
+	if c.Stage == "" {
+		if serr != nil || delivered != 1 {
+			return h.F("c17-sendmail", "%s: returned %v, %d message(s) accepted by the backend; want nil and 1", desc, serr, delivered)
+		}
+		return nil
+	}
+	var se *smtp.SMTPError
+	if serr == nil || !errors.As(serr, &se) {
+		return h.F("c17-sendmail", "%s: returned %v; want the backend's SMTPError (calls: %s)", desc, serr, h.Calls(be.Trace()))
+	}
+	want := 550
+	if c.Stage == "data" {
+		want = 554
+	}
+	if se.Code != want || !strings.Contains(se.Message, "rejected") {
+		return h.F("c17-sendmail", "%s: returned %d %v %q; want the backend's %d ... rejected ...", desc, se.Code, se.EnhancedCode, se.Message, want)
+	}
+	if delivered != 0 {
+		return h.F("c17-sendmail", "%s: a message was accepted by the backend although a stage refused", desc)
+	}
+	return nil
+}
+
+func init() { h.RegisterReplayer("c17-sendmail", evalC17Send) }
+
 func C17(tier string) int {
 	run := h.NewRun("C17", tier, "exploration", "", 20*time.Minute)
 	codes := []int{421, 450, 451, 452, 500, 501, 550, 552, 554}
@@ -413,5 +477,15 @@ func C17(tier string) int {
 			run.Outcome("seq:" + c.Via[0] + "," + c.Via[1])
 		}
 	})
+	// the package-level SendMail over a real loopback connection: every stage's refusal comes back as the error
+	for _, st := range []string{"", "mail", "rcpt1", "rcpt2", "data"} {
+		c := C17SendCase{Stage: st}
+		f := evalC17Send(c)
+		run.Eval(true)
+		if f != nil {
+			run.Violate("c17-sendmail", c, f, func() *h.Finding { return evalC17Send(c) })
+			run.Outcome("violation:" + f.Sig)
+		}
+	}
 	return run.Finish()
 }
